@@ -22,7 +22,7 @@ func VerifH_C08_view() {
 	wr := &vWriter{m: m, tr: tr}
 	pre := verifParam("PRE", 5) // enough key frames to fill the window, so that the rotation also evicts
 	for i := 0; i < pre; i++ {
-		wr.writeIDR(int64(90000 + 9000*verifChoice("step", 2)))
+		wr.writeIDR(int64(90000 * (1 + verifChoice("step", 2))))
 	}
 	var resp *verifRW
 	var done atomic.Bool
@@ -35,7 +35,7 @@ func VerifH_C08_view() {
 		resp = verifGet(m, sid+"_stream.m3u8")
 		done.Store(true)
 	}()
-	wr.writeIDR(90000) // rotation, racing the request
+	wr.writeIDR(int64(90000 * (1 + 2*verifChoice("racestep", 2)))) // rotation (possibly with a longer segment: target duration grows), racing the request
 	verifQuiesce()
 	verifReach("raced")
 	verifAssert("C08", "request-completes", done.Load())
